@@ -5,7 +5,7 @@ From Coq Require Import Sorting.Sorted Sorting.Permutation.
 From GoCar Require Import Bytes Varint Cid Header Frame V2Header Scan Index Store Wf.
 From GoCarProofs Require Import BytesFacts VarintFacts CidFacts HeaderFacts ScanFacts
      FinalBytes FinalOrder FinalIndex FinalStore FinalCid.
-From GoCarProofs Require IndexSort IndexLoad.
+From GoCarProofs Require IndexSort IndexLoad IndexRoundtrip.
 
 (* a block a writer can be handed: the key is a CID as go-cid produces it, and LdWrite can frame
    the section (its length varint buffer has 8 bytes) *)
@@ -234,6 +234,160 @@ Qed.
 Lemma filter_all {A} (f : A -> bool) l : Forall (fun x => f x = true) l -> filter f l = l.
 Proof. induction 1 as [|x l Hx _ IH]; cbn [filter]; [reflexivity|]. rewrite Hx, IH. reflexivity. Qed.
 
+(* ---- an index loaded from the records of the indexable sections resolves exactly those sections ----------
+   General form: [recs] is any arrangement (insertion order, payload order, a Go map's iteration order)
+   of one record per indexable section.  Lookups and the Marshal/Unmarshal round trip are C11's theorems. *)
+Section IndexGen.
+  Variables (storeid : bool) (codec : N) (secs : list rsec) (recs : list irec) (i0 fi : index).
+  Hypothesis Hperm : Permutation recs (map rec_of_sec (filter (indexable storeid) secs)).
+  Hypothesis Hok : Forall IndexLoad.rec_ok recs.
+  Hypothesis Hnew : idx_new codec = Some i0.
+  Hypothesis Hfi : fi = idx_load recs i0.
+  Hypothesis Hsmall : blen (idx_write fi) < two63.
+  Hypothesis Hcodes : codec = codec_mh_sorted -> N.of_nat (n_codes recs) < two31.
+
+  Lemma g_offs_ok : offs_ok recs.
+  Proof. unfold offs_ok. eapply Forall_impl; [|exact Hok]. intros r (H & _). exact H. Qed.
+
+  Lemma g_codec_cases : (codec = codec_sorted /\ fi = IdxSorted (mwi_load recs [])) \/
+                        (codec = codec_mh_sorted /\ fi = IdxMh (mh_load recs [])).
+  Proof.
+    pose proof Hnew as H'. unfold idx_new in H'. rewrite Hfi.
+    destruct (codec =? codec_sorted) eqn:E1.
+    - left. split; [lia|]. inversion H'. reflexivity.
+    - destruct (codec =? codec_mh_sorted) eqn:E2; [|discriminate].
+      right. split; [lia|]. inversion H'. reflexivity.
+  Qed.
+
+  (* all compacted records are inside the marshalled index, hence within one Go allocation *)
+  Lemma g_recs_in_index : IndexLoad.recs_fit recs.
+  Proof.
+    unfold IndexLoad.recs_fit, max_alloc. pose proof Hsmall as Hsm. unfold idx_write in Hsm. rewrite blen_app in Hsm.
+    destruct g_codec_cases as [[_ E]|[_ E]]; rewrite E in Hsm; cbn [idx_marshal] in Hsm.
+    - pose proof (compact_le_mwi recs). unfold two63 in *. lia.
+    - pose proof (compact_le_mh recs). unfold two63 in *. lia.
+  Qed.
+
+  Lemma g_index_good : IndexRoundtrip.idx_wf fi /\ idx_codec fi = codec.
+  Proof.
+    split.
+    - rewrite Hfi.
+      apply (IndexLoad.idx_load_fresh_wf sort_by_digest IndexSort.sort_by_digest_contract codec i0 recs Hnew Hok).
+      split; [exact g_recs_in_index|]. exact Hcodes.
+    - destruct g_codec_cases as [[Hc E]|[Hc E]]; rewrite E; cbn [idx_codec]; symmetry; exact Hc.
+  Qed.
+
+  Lemma g_entries_perm :
+    Permutation (idx_entries fi)
+                (map (fun r => ((if codec =? codec_sorted then None else Some (r_code r)), r_digest r, r_off r)) recs).
+  Proof.
+    pose proof g_offs_ok as Ho.
+    destruct g_codec_cases as [[Hc E]|[Hc E]]; rewrite E; cbn [idx_entries]; rewrite Hc.
+    - cbn [N.eqb codec_sorted Pos.eqb].
+      eapply Permutation_trans; [apply Permutation_map; apply mwi_foreach_load; exact Ho|].
+      rewrite map_map. apply Permutation_refl.
+    - change (codec_mh_sorted =? codec_sorted) with false. cbv iota.
+      eapply Permutation_trans; [apply Permutation_map; apply mh_foreach_load; exact Ho|].
+      rewrite map_map. apply Permutation_refl.
+  Qed.
+
+  Lemma g_getall_finds s : In s secs -> indexable storeid s = true ->
+    In (s_off s) (idx_getall fi (c_mhcode (s_p s)) (c_digest (s_p s))).
+  Proof.
+    intros Hs Hix.
+    assert (Hr : In (rec_of_sec s) recs).
+    { apply (Permutation_in _ (Permutation_sym Hperm)). apply in_map. apply filter_In. auto. }
+    pose proof (IndexLoad.idx_getall_load sort_by_digest IndexSort.sort_by_digest_contract codec i0 recs
+                  (c_mhcode (s_p s)) (c_digest (s_p s)) Hnew Hok g_recs_in_index) as Hp.
+    rewrite Hfi. apply (Permutation_in _ (Permutation_sym Hp)).
+    destruct (codec =? codec_sorted).
+    - unfold spec_offsets_digest. apply (in_map r_off _ (rec_of_sec s)). apply filter_In. split; [exact Hr|].
+      cbn [rec_of_sec r_digest]. apply bytes_eqb_refl.
+    - unfold spec_offsets_mh. apply (in_map r_off _ (rec_of_sec s)). apply filter_In. split; [exact Hr|].
+      cbn [rec_of_sec r_digest r_code]. rewrite N.eqb_refl, bytes_eqb_refl. reflexivity.
+  Qed.
+
+  Theorem g_index_exact : index_exact storeid fi secs = true.
+  Proof.
+    unfold index_exact. apply andb_true_iff. split; [apply andb_true_iff; split|].
+    - apply (forallb_perm _ _ _ g_entries_perm). apply forallb_forall. intros e He.
+      apply in_map_iff in He. destruct He as (r & <- & Hr).
+      apply (Permutation_in _ Hperm) in Hr. apply in_map_iff in Hr. destruct Hr as (s & <- & Hs).
+      apply filter_In in Hs. destruct Hs as [Hs _].
+      unfold entry_points_at, rec_of_sec. cbn [r_code r_digest r_off]. apply existsb_exists. exists s. split; [exact Hs|].
+      rewrite N.eqb_refl, bytes_eqb_refl. cbn [andb]. destruct (codec =? codec_sorted); [reflexivity|apply N.eqb_refl].
+    - apply forallb_forall. intros s Hs. apply filter_In in Hs. destruct Hs as [Hs Hix].
+      unfold sec_resolvable. apply existsb_exists.
+      exists (s_off s). split; [apply g_getall_finds; assumption|apply N.eqb_refl].
+    - rewrite (Permutation_length g_entries_perm), map_length, (Permutation_length Hperm), map_length.
+      apply N.eqb_refl.
+  Qed.
+End IndexGen.
+
+(* ---- a CARv2 container around a constructed payload, closed by such an index, is well-formed ------------------ *)
+Theorem wf_finished_container exact o ro bs hi fi :
+  ro_ok ro -> Forall put_ok bs -> w_v1 o = false ->
+  flag_ok exact (w_storeid o) hi = true ->
+  let P := payload_opt ro bs in
+  let file := pragma ++ enc_v2hdr (mkv2 hi 0 (51 + w_dpad o) (blen P) (51 + w_dpad o + blen P + w_ipad o)) ++
+              zerosN (w_dpad o) ++ P ++ zerosN (w_ipad o) ++ idx_write fi in
+  blen file < two63 ->
+  IndexRoundtrip.idx_wf fi -> idx_codec fi = w_codec o ->
+  index_exact (w_storeid o) fi (secs_of (hdr_len ro) bs) = true ->
+  wf_finished exact o file = Some (roots_of ro, bs).
+Proof.
+  intros Hro Hput Hv Hflag P file Hlen Hgood Hcodec Hexact. unfold file in *. clear file.
+  unfold wf_finished. rewrite Hv.
+  set (h := mkv2 hi 0 (51 + w_dpad o) (blen P) (51 + w_dpad o + blen P + w_ipad o)) in *.
+  set (I := idx_write fi) in *.
+  assert (HL : blen (pragma ++ enc_v2hdr h ++ zerosN (w_dpad o) ++ P ++ zerosN (w_ipad o) ++ I) =
+               51 + w_dpad o + blen P + w_ipad o + blen I).
+  { rewrite !blen_app, blen_pragma, blen_enc_v2hdr, !blen_zerosN. lia. }
+  rewrite HL in Hlen.
+  change pragma_size with (blen pragma). rewrite take_app, bytes_eqb_refl. cbn [negb].
+  rewrite HL. replace (51 + w_dpad o + blen P + w_ipad o + blen I <? 51) with false by lia.
+  rewrite drop_app.
+  assert (Hhi : hi < two64).
+  { unfold flag_ok, fully_indexed_bit, two64 in *. destruct exact; [destruct (w_storeid o)|]; lia. }
+  assert (Hf : h_hi h < two64 /\ h_lo h < two64 /\ h_doff h < two64 /\ h_dsize h < two64 /\ h_ioff h < two64).
+  { unfold h. cbn [h_hi h_lo h_doff h_dsize h_ioff]. unfold two63, two64 in *. repeat split; lia. }
+  destruct Hf as (F1 & F2 & F3 & F4 & F5).
+  destruct (v2hdr_fields h (zerosN (w_dpad o) ++ P ++ zerosN (w_ipad o) ++ I) F1 F2 F3 F4 F5)
+    as (E1 & E2 & E3 & E4 & E5).
+  rewrite E1, E2, E3, E4, E5.
+  change (h_hi h) with hi.
+  change (h_lo h) with 0. change (h_doff h) with (51 + w_dpad o). change (h_dsize h) with (blen P).
+  change (h_ioff h) with (51 + w_dpad o + blen P + w_ipad o).
+  rewrite Hflag, !N.eqb_refl. cbn [andb negb].
+  replace (51 + w_dpad o + blen P + w_ipad o + blen I <? 51 + w_dpad o + blen P + w_ipad o) with false by lia.
+  assert (D51 : drop 51 (pragma ++ enc_v2hdr h ++ zerosN (w_dpad o) ++ P ++ zerosN (w_ipad o) ++ I) =
+                zerosN (w_dpad o) ++ P ++ zerosN (w_ipad o) ++ I).
+  { rewrite app_assoc. replace 51 with (blen (pragma ++ enc_v2hdr h)) by (rewrite blen_app, blen_pragma, blen_enc_v2hdr; reflexivity).
+    apply drop_app. }
+  rewrite D51. rewrite <- (blen_zerosN (w_dpad o)) at 1. rewrite take_app, all_zero_zerosN. cbn [negb].
+  assert (Ddoff : drop (51 + w_dpad o) (pragma ++ enc_v2hdr h ++ zerosN (w_dpad o) ++ P ++ zerosN (w_ipad o) ++ I) =
+                  P ++ zerosN (w_ipad o) ++ I).
+  { rewrite <- (drop_drop (w_dpad o) 51), D51. rewrite <- (blen_zerosN (w_dpad o)) at 1. apply drop_app. }
+  assert (Dend : drop (51 + w_dpad o + blen P) (pragma ++ enc_v2hdr h ++ zerosN (w_dpad o) ++ P ++ zerosN (w_ipad o) ++ I) =
+                 zerosN (w_ipad o) ++ I).
+  { rewrite <- (drop_drop (blen P) (51 + w_dpad o)), Ddoff. apply drop_app. }
+  rewrite Dend. rewrite <- (blen_zerosN (w_ipad o)) at 1. rewrite take_app, all_zero_zerosN. cbn [negb].
+  rewrite Ddoff, take_app.
+  unfold P at 1. rewrite (ref_scan_payload ro bs Hro Hput).
+  assert (Dio : drop (51 + w_dpad o + blen P + w_ipad o) (pragma ++ enc_v2hdr h ++ zerosN (w_dpad o) ++ P ++ zerosN (w_ipad o) ++ I) = I).
+  { rewrite <- (drop_drop (w_ipad o) (51 + w_dpad o + blen P)), Dend. rewrite <- (blen_zerosN (w_ipad o)) at 1. apply drop_app. }
+  rewrite Dio.
+  unfold I. rewrite <- (app_nil_r (idx_write fi)). rewrite (IndexRoundtrip.idx_read_write fi [] Hgood).
+  rewrite Hcodec, N.eqb_refl. cbn [andb]. rewrite Hexact.
+  rewrite (secs_of_blocks bs Hput). reflexivity.
+Qed.
+
+(* ---- the instance for store.Finalize: every stored section is indexable --------------------------------------- *)
+Definition wf_opts (o : wopts) : Prop := w_maxcid o + 8 <= max_width.
+
+Lemma stored_ok_put o bs : Forall (stored_ok o) bs -> Forall put_ok bs.
+Proof. apply Forall_impl. intros b (H & _). exact H. Qed.
+
 Section IndexExact.
   Variables (o : wopts) (ro : option (list bytes)) (bs : list block) (fi : index).
   Hypothesis Hbs : Forall (stored_ok o) bs.
@@ -244,125 +398,56 @@ Section IndexExact.
   Hypothesis Hcodes : w_codec o = codec_mh_sorted -> N.of_nat (n_codes (idx_of ro bs)) < two31.
 
   Let secs := secs_of (hdr_len ro) bs.
-  Let R := records_from (hdr_len ro) bs.
   Let recs := idx_of ro bs.
-
-  Lemma recs_perm : Permutation recs (map rec_of_sec secs).
-  Proof. unfold recs, idx_of, secs. rewrite <- records_from_secs. apply ii_load_perm. Qed.
 
   Lemma secs_facts : Forall (fun s => s_off s < two64 /\ blen (c_digest (s_p s)) + 8 <= max_width /\
                                       c_mhcode (s_p s) < two64 /\ indexable (w_storeid o) s = true) secs.
   Proof.
     pose proof (secs_of_props o bs Hbs (hdr_len ro)) as H. eapply Forall_impl; [|exact H].
-    intros s (H1 & H2 & H3 & H4 & H5). rewrite blen_payload_opt in Hpay.
+    intros s (H1 & H2 & H3 & H4 & H5). pose proof Hpay as Hp. rewrite blen_payload_opt in Hp.
     unfold two63, two64 in *. repeat split; try lia. exact H5.
   Qed.
 
-  Lemma recs_fit : Forall rec_fits recs.
-  Proof.
-    rewrite Forall_forall. intros r Hr. apply (Permutation_in _ recs_perm) in Hr.
-    apply in_map_iff in Hr. destruct Hr as (s & <- & Hs).
-    pose proof secs_facts as Hf. rewrite Forall_forall in Hf. destruct (Hf s Hs) as (H1 & H2 & H3 & _).
-    unfold rec_fits, rec_of_sec. cbn [r_digest r_off r_code]. auto.
-  Qed.
+  Lemma secs_all_indexable : filter (indexable (w_storeid o)) secs = secs.
+  Proof. apply filter_all. eapply Forall_impl; [|exact secs_facts]. intros s (_ & _ & _ & H). exact H. Qed.
 
-  Lemma codec_cases : (w_codec o = codec_sorted /\ fi = IdxSorted (mwi_load recs [])) \/
-                      (w_codec o = codec_mh_sorted /\ fi = IdxMh (mh_load recs [])).
-  Proof.
-    pose proof Hfi as H'. unfold final_index, ii_flatten, idx_new in H'. fold recs in H'. unfold ii_flatten_records in H'.
-    destruct (w_codec o =? codec_sorted) eqn:E1.
-    - left. split; [lia|]. inversion H'. reflexivity.
-    - destruct (w_codec o =? codec_mh_sorted) eqn:E2; [|discriminate].
-      right. split; [lia|]. inversion H'. reflexivity.
-  Qed.
+  Lemma recs_perm : Permutation recs (map rec_of_sec (filter (indexable (w_storeid o)) secs)).
+  Proof. rewrite secs_all_indexable. unfold recs, idx_of, secs. rewrite <- records_from_secs. apply ii_load_perm. Qed.
 
-  Lemma final_index_good : idx_good fi /\ idx_codec fi = w_codec o.
-  Proof.
-    pose proof Hsmall as Hsm.
-    destruct codec_cases as [[Hc E]|[Hc E]]; rewrite E in Hsm |- *; cbn [idx_good idx_codec]; (split; [|symmetry; exact Hc]).
-    - apply mwi_load_good; [exact recs_fit|]. apply mwi_marshal_small.
-      unfold idx_write in Hsm. cbn [idx_marshal] in Hsm. rewrite blen_app in Hsm. lia.
-    - apply mh_load_good; [exact recs_fit| |exact (Hcodes Hc)]. apply mh_marshal_small.
-      unfold idx_write in Hsm. cbn [idx_marshal] in Hsm. rewrite blen_app in Hsm. lia.
-  Qed.
-
-  Lemma entries_perm :
-    Permutation (idx_entries fi)
-                (map (fun r => ((if w_codec o =? codec_sorted then None else Some (r_code r)), r_digest r, r_off r)) recs).
-  Proof.
-    pose proof (recs_offs_ok recs recs_fit) as Ho.
-    destruct codec_cases as [[Hc E]|[Hc E]]; rewrite E; cbn [idx_entries]; rewrite Hc.
-    - cbn [N.eqb codec_sorted Pos.eqb].
-      eapply Permutation_trans; [apply Permutation_map; apply mwi_foreach_load; exact Ho|].
-      rewrite map_map. apply Permutation_refl.
-    - change (codec_mh_sorted =? codec_sorted) with false. cbv iota.
-      eapply Permutation_trans; [apply Permutation_map; apply mh_foreach_load; exact Ho|].
-      rewrite map_map. apply Permutation_refl.
-  Qed.
-
-  (* lookups: C11's theorem (IndexLoad.idx_getall_load: GetAll on a loaded index = the offsets of the records
-     carrying the key), instantiated with the model's sort and the records of the stored sections *)
   Lemma recs_rec_ok : Forall IndexLoad.rec_ok recs.
   Proof.
-    eapply Forall_impl; [|exact recs_fit]. intros r (H1 & H2 & H3).
-    unfold IndexLoad.rec_ok, rec_width. auto.
+    rewrite Forall_forall. intros r Hr. apply (Permutation_in _ recs_perm) in Hr. rewrite secs_all_indexable in Hr.
+    apply in_map_iff in Hr. destruct Hr as (s & <- & Hs).
+    pose proof secs_facts as Hf. rewrite Forall_forall in Hf. destruct (Hf s Hs) as (H1 & H2 & H3 & _).
+    unfold IndexLoad.rec_ok, rec_width, rec_of_sec. cbn [r_digest r_off r_code]. auto.
   Qed.
 
-  Lemma new_codec : exists i0, idx_new (w_codec o) = Some i0 /\ fi = idx_load_with sort_by_digest recs i0.
+  Lemma new_codec : exists i0, idx_new (w_codec o) = Some i0 /\ fi = idx_load recs i0.
   Proof.
     pose proof Hfi as H'. unfold final_index, ii_flatten in H'. fold recs in H'. unfold ii_flatten_records in H'.
     destruct (idx_new (w_codec o)) as [i0|]; [|discriminate]. exists i0. split; [reflexivity|].
     inversion H'. reflexivity.
   Qed.
 
-  (* all compacted records are inside the marshalled index, hence within one Go allocation *)
-  Lemma recs_in_index : IndexLoad.recs_fit recs.
+  Lemma final_index_good : IndexRoundtrip.idx_wf fi /\ idx_codec fi = w_codec o.
   Proof.
-    unfold IndexLoad.recs_fit, max_alloc. pose proof Hsmall as Hsm. unfold idx_write in Hsm. rewrite blen_app in Hsm.
-    destruct codec_cases as [[_ E]|[_ E]]; rewrite E in Hsm; cbn [idx_marshal] in Hsm.
-    - pose proof (compact_le_mwi recs). unfold two63 in *. lia.
-    - pose proof (compact_le_mh recs). unfold two63 in *. lia.
+    destruct new_codec as (i0 & Hnew & E).
+    exact (g_index_good (w_codec o) recs i0 fi recs_rec_ok Hnew E Hsmall Hcodes).
   Qed.
 
   Lemma getall_finds s : In s secs -> In (s_off s) (idx_getall fi (c_mhcode (s_p s)) (c_digest (s_p s))).
   Proof.
-    intros Hs.
-    assert (Hr : In (rec_of_sec s) recs).
-    { apply (Permutation_in _ (Permutation_sym recs_perm)). apply in_map. exact Hs. }
-    destruct new_codec as (i0 & Hnew & E).
-    pose proof (IndexLoad.idx_getall_load sort_by_digest IndexSort.sort_by_digest_contract (w_codec o) i0 recs
-                  (c_mhcode (s_p s)) (c_digest (s_p s)) Hnew recs_rec_ok recs_in_index) as Hp.
-    rewrite <- E in Hp. apply (Permutation_in _ (Permutation_sym Hp)).
-    destruct (w_codec o =? codec_sorted).
-    - unfold spec_offsets_digest. apply (in_map r_off _ (rec_of_sec s)). apply filter_In. split; [exact Hr|].
-      cbn [rec_of_sec r_digest]. apply bytes_eqb_refl.
-    - unfold spec_offsets_mh. apply (in_map r_off _ (rec_of_sec s)). apply filter_In. split; [exact Hr|].
-      cbn [rec_of_sec r_digest r_code]. rewrite N.eqb_refl, bytes_eqb_refl. reflexivity.
+    intros Hs. destruct new_codec as (i0 & Hnew & E).
+    apply (g_getall_finds (w_storeid o) (w_codec o) secs recs i0 fi recs_perm recs_rec_ok Hnew E Hsmall Hcodes s Hs).
+    pose proof secs_facts as Hf. rewrite Forall_forall in Hf. apply (Hf s Hs).
   Qed.
 
   Theorem index_exact_layout : index_exact (w_storeid o) fi secs = true.
   Proof.
-    unfold index_exact.
-    assert (Hfilter : filter (indexable (w_storeid o)) secs = secs).
-    { apply filter_all. eapply Forall_impl; [|exact secs_facts]. intros s (_ & _ & _ & H). exact H. }
-    rewrite Hfilter. apply andb_true_iff. split; [apply andb_true_iff; split|].
-    - apply (forallb_perm _ _ _ entries_perm). apply forallb_forall. intros e He.
-      apply in_map_iff in He. destruct He as (r & <- & Hr).
-      apply (Permutation_in _ recs_perm) in Hr. apply in_map_iff in Hr. destruct Hr as (s & <- & Hs).
-      unfold entry_points_at, rec_of_sec. cbn [r_code r_digest r_off]. apply existsb_exists. exists s. split; [exact Hs|].
-      rewrite N.eqb_refl, bytes_eqb_refl. cbn [andb]. destruct (w_codec o =? codec_sorted); [reflexivity|apply N.eqb_refl].
-    - apply forallb_forall. intros s Hs. unfold sec_resolvable. apply existsb_exists.
-      exists (s_off s). split; [apply getall_finds; exact Hs|apply N.eqb_refl].
-    - rewrite (Permutation_length entries_perm), map_length, (Permutation_length recs_perm), map_length.
-      apply N.eqb_refl.
+    destruct new_codec as (i0 & Hnew & E).
+    exact (g_index_exact (w_storeid o) (w_codec o) secs recs i0 fi recs_perm recs_rec_ok Hnew E Hsmall Hcodes).
   Qed.
 End IndexExact.
-
-(* ---- wf_parse of the layout ------------------------------------------------------------------------------ *)
-Definition wf_opts (o : wopts) : Prop := w_maxcid o + 8 <= max_width.
-
-Lemma stored_ok_put o bs : Forall (stored_ok o) bs -> Forall put_ok bs.
-Proof. apply Forall_impl. intros b (H & _). exact H. Qed.
 
 Theorem wf_parse_layout o ro bs fi :
   wf_opts o -> ro_ok ro -> Forall (stored_ok o) bs ->
@@ -372,52 +457,21 @@ Theorem wf_parse_layout o ro bs fi :
   wf_parse o (layout o ro bs fi) = Some (roots_of ro, bs).
 Proof.
   intros Hwo Hro Hbs Hlen Hidx. pose proof (stored_ok_put o bs Hbs) as Hput.
-  unfold wf_parse, layout in *. destruct (w_v1 o) eqn:Hv.
-  - rewrite (ref_scan_payload ro bs Hro Hput). rewrite (secs_of_blocks bs Hput). reflexivity.
+  unfold wf_parse. destruct (w_v1 o) eqn:Hv.
+  - unfold wf_finished, layout. rewrite Hv.
+    rewrite (ref_scan_payload ro bs Hro Hput). rewrite (secs_of_blocks bs Hput). reflexivity.
   - destruct (Hidx eq_refl) as [Hfi Hcodes]. clear Hidx.
-    set (P := payload_opt ro bs) in *. set (h := final_hdr o (blen P)) in *.
-    set (I := idx_write fi) in *.
-    assert (HL : blen (pragma ++ enc_v2hdr h ++ zerosN (w_dpad o) ++ P ++ zerosN (w_ipad o) ++ I) =
-                 51 + w_dpad o + blen P + w_ipad o + blen I).
-    { rewrite !blen_app, blen_pragma, blen_enc_v2hdr, !blen_zerosN. lia. }
-    rewrite HL in Hlen.
-    change pragma_size with (blen pragma). rewrite take_app, bytes_eqb_refl. cbn [negb].
-    rewrite HL. replace (51 + w_dpad o + blen P + w_ipad o + blen I <? 51) with false by lia.
-    rewrite drop_app.
-    assert (Hf : h_hi h < two64 /\ h_lo h < two64 /\ h_doff h < two64 /\ h_dsize h < two64 /\ h_ioff h < two64).
-    { unfold h, final_hdr, fully_indexed_bit. cbn [h_hi h_lo h_doff h_dsize h_ioff]. unfold two63, two64 in *.
-      destruct (w_storeid o); repeat split; lia. }
-    destruct Hf as (F1 & F2 & F3 & F4 & F5).
-    destruct (v2hdr_fields h (zerosN (w_dpad o) ++ P ++ zerosN (w_ipad o) ++ I) F1 F2 F3 F4 F5)
-      as (E1 & E2 & E3 & E4 & E5).
-    rewrite E1, E2, E3, E4, E5.
-    change (h_hi h) with (if w_storeid o then fully_indexed_bit else 0).
-    change (h_lo h) with 0. change (h_doff h) with (51 + w_dpad o). change (h_dsize h) with (blen P).
-    change (h_ioff h) with (51 + w_dpad o + blen P + w_ipad o).
-    rewrite !N.eqb_refl. cbn [andb negb].
-    replace (51 + w_dpad o + blen P + w_ipad o + blen I <? 51 + w_dpad o + blen P + w_ipad o) with false by lia.
-    (* the two paddings *)
-    assert (D51 : drop 51 (pragma ++ enc_v2hdr h ++ zerosN (w_dpad o) ++ P ++ zerosN (w_ipad o) ++ I) =
-                  zerosN (w_dpad o) ++ P ++ zerosN (w_ipad o) ++ I).
-    { rewrite app_assoc. replace 51 with (blen (pragma ++ enc_v2hdr h)) by (rewrite blen_app, blen_pragma, blen_enc_v2hdr; reflexivity).
-      apply drop_app. }
-    rewrite D51. rewrite <- (blen_zerosN (w_dpad o)) at 1. rewrite take_app, all_zero_zerosN. cbn [negb].
-    assert (Ddoff : drop (51 + w_dpad o) (pragma ++ enc_v2hdr h ++ zerosN (w_dpad o) ++ P ++ zerosN (w_ipad o) ++ I) =
-                    P ++ zerosN (w_ipad o) ++ I).
-    { rewrite <- (drop_drop (w_dpad o) 51), D51. rewrite <- (blen_zerosN (w_dpad o)) at 1. apply drop_app. }
-    assert (Dend : drop (51 + w_dpad o + blen P) (pragma ++ enc_v2hdr h ++ zerosN (w_dpad o) ++ P ++ zerosN (w_ipad o) ++ I) =
-                   zerosN (w_ipad o) ++ I).
-    { rewrite <- (drop_drop (blen P) (51 + w_dpad o)), Ddoff. apply drop_app. }
-    rewrite Dend. rewrite <- (blen_zerosN (w_ipad o)) at 1. rewrite take_app, all_zero_zerosN. cbn [negb].
-    rewrite Ddoff, take_app.
-    unfold P at 1. rewrite (ref_scan_payload ro bs Hro Hput).
-    assert (Dio : drop (51 + w_dpad o + blen P + w_ipad o) (pragma ++ enc_v2hdr h ++ zerosN (w_dpad o) ++ P ++ zerosN (w_ipad o) ++ I) = I).
-    { rewrite <- (drop_drop (w_ipad o) (51 + w_dpad o + blen P)), Dend. rewrite <- (blen_zerosN (w_ipad o)) at 1. apply drop_app. }
-    rewrite Dio.
-    assert (HP63 : blen P < two63) by lia. assert (HI63 : blen I < two63) by lia.
+    assert (Hlay : layout o ro bs fi =
+      pragma ++ enc_v2hdr (mkv2 (if w_storeid o then fully_indexed_bit else 0) 0 (51 + w_dpad o) (blen (payload_opt ro bs))
+                                (51 + w_dpad o + blen (payload_opt ro bs) + w_ipad o)) ++
+      zerosN (w_dpad o) ++ payload_opt ro bs ++ zerosN (w_ipad o) ++ idx_write fi).
+    { unfold layout. rewrite Hv. reflexivity. }
+    rewrite Hlay in Hlen |- *.
+    assert (HL : blen (payload_opt ro bs) < two63 /\ blen (idx_write fi) < two63).
+    { rewrite !blen_app, blen_pragma, blen_enc_v2hdr, !blen_zerosN in Hlen. lia. }
+    destruct HL as [HP63 HI63].
     destruct (final_index_good o ro bs fi Hbs Hwo HP63 Hfi HI63 Hcodes) as [Hgood Hcodec].
-    unfold I. rewrite <- (app_nil_r (idx_write fi)). rewrite (idx_read_write fi [] Hgood).
-    rewrite Hcodec, N.eqb_refl. cbn [andb].
-    rewrite (index_exact_layout o ro bs fi Hbs Hwo HP63 Hfi HI63 Hcodes).
-    rewrite (secs_of_blocks bs Hput). reflexivity.
+    apply wf_finished_container; try assumption.
+    + unfold flag_ok. apply N.eqb_refl.
+    + exact (index_exact_layout o ro bs fi Hbs Hwo HP63 Hfi HI63 Hcodes).
 Qed.
